@@ -17,6 +17,7 @@ CONSTANTS
   KeepTasks = FALSE
   KernMode = "pipe"
   GenMode = TRUE
+  MaxIntr = 0
   InitBits = {0, 1}
 INVARIANTS NoViolation Emit
 CHECK_DEADLOCK FALSE
